@@ -170,6 +170,18 @@ class Angle(Term):
 
     @staticmethod
     def combine(a, b, sg):
+        """a + sg*b.  Angle +- Angle (or +- a multiple of pi) stays an Angle; an angle used as a plain number
+        (added to a non-angle) degrades to ordinary real arithmetic on its value"""
+        def plain(x):
+            return Term(x.z, x.nodes) if isinstance(x, Angle) else x
+        for x in (a, b):
+            if isinstance(x, Angle):
+                continue
+            if isnum(x):
+                if float(x) != 0.0 and core.pi_multiple(float(x)) is None:
+                    return plain(a) + plain(b) if sg > 0 else plain(a) - plain(b)
+            else:
+                return plain(a) + plain(b) if sg > 0 else plain(a) - plain(b)
         a, b = as_angle(a), as_angle(b)
         d = dict(a.ang)
         for k, (v, p) in b.ang.items():
@@ -421,6 +433,12 @@ class Trig:
             E.defs.append(kT.z > 0)          # (X, Y) != (0, 0) on this path (decided above)
             cT, sT = core.divide(Term(Xz), kT), core.divide(Term(Yz), kT)
         E.defs += [c == toz(cT), s == toz(sT), phi > -PI, phi <= PI]
+        if z3.is_rational_value(Xz) and core._const_val(Xz) == 1:
+            # arctan(y): AT1  y > 0  ==>  3y/(3+y^2) < arctan y < y   (and the mirror image for y < 0)
+            E.axioms_used.add('AT1')
+            E.defs += [z3.Implies(Yz > 0, z3.And(phi * (3 + Yz * Yz) > 3 * Yz, phi < Yz)),
+                       z3.Implies(Yz < 0, z3.And(phi * (3 + Yz * Yz) < 3 * Yz, phi > Yz)),
+                       z3.Implies(Yz == 0, phi == 0)]
         return Angle({name: (Fraction(1), 0)})
 
     def arcsin(self, x):
